@@ -608,6 +608,7 @@ def afterType (d : Dec) (t : ChunkType) (length : Nat) : Except Err (St × Dec) 
   else if t = IDAT then
     if !d.readyIdat then .error (.format "UnexpectedRestartOfDataChunkSequence IDAT")
     else .ok (.imageData t, { d with haveIdat := true })
+  else if length = 0 then .ok (.parseChunkData t, d)      -- an empty chunk is complete already (stream.rs:886-887)
   else .ok (.readChunkData t, d)
 
 /-- `parse_u32` (stream.rs:808-957).  `d.state = none` on entry (taken by `next_state`). -/
@@ -644,7 +645,8 @@ def parseU32 (cfg : Cfg) (d : Dec) (kind : U32Kind) (b0 b1 b2 b3 : UInt8) : Exce
     if val = sum then
       if t = IEND then .ok (.imageEnd, d)       -- state stays `none`
       else .ok (.chunkComplete val t, { d with state := some (.u32 .length []) })
-    else if d.opts.skipAncillaryCrcFailures ∧ !isCritical t then
+    else if d.opts.skipAncillaryCrcFailures ∧ !isCritical t ∧ t ≠ acTL ∧ t ≠ fcTL ∧ t ≠ fdAT then
+      -- (the animation chunks have been acted on already: not skipped, stream.rs:925-928)
       .ok (.nothing, { d with state := some (.u32 .length []) })
     else .error (.format "CrcMismatch")
   | .seqNo =>
